@@ -61,7 +61,7 @@ CLAIMED["C07"] = {
             "before any handler runs; (a) visitor completeness of the capture walk (every code-bearing AST field is visited by dependencies()); (a') the capture filter: get_net_dependencies raises a "
             "dependency's depth only after comparing it with the block's supplies; every keep/drop comparison in it and in the hand-written "
             "net_dependencies impls compares Dependency values, never names alone, and Dependency == Dependency is true exactly when names and "
-            "types are equal (truth table); nothing in the 58 bodies of the capture walk files dependencies under their name alone (no name-keyed set / map, no dedup); a name resolves in the running function's own frames first, then in the closure's captures, and only then in its callers' frames (lexical scoping; `load` and `make_function` agree). "
+            "types are equal (truth table); nothing in the 58 bodies of the capture walk files dependencies under their name alone (no name-keyed set / map, no dedup); a name resolves in the running function's own frames first, then in the closure's captures, and only then in its callers' frames (lexical scoping; `load`, `make_function`, `bin_op_assign` and every other handler that falls back on the whole stack agree). "
             "Does not decide run-time histories.",
     "technique": "static analysis: type-resolved who-may-create/who-may-call, value-origin slicing (pass-through), dominators on rustc MIR; visitor completeness over ADT fields",
     "design_ref": "DESIGN.md §5 C07",
@@ -306,7 +306,7 @@ NOT_APPLICABLE = {
 }
 
 # no hook commits exist; the only commits made to /repo are unguarded "fix:" repairs of genuine defects (see known_findings.json)
-FIX_COMMITS = ["e2ae2a9", "cb2d1e0", "e7575e5", "7bc2f7d", "0af4d83", "e4a4c00", "58e025f", "686179e", "7296d9a", "fa4b68b", "379557f", "4b30646", "0420930", "3aba53e", "2f2a1a1", "40a185d", "926b1f7", "1bc1139", "80aa30b", "cb4346c", "34ccc50", "c46bbfb", "52e39f3", "113558c", "2f9df7c", "3049d27", "8c4d891", "b57e9f6", "06f5ab2", "b6686d7", "5bdb4bc", "21f2ccc", "f629b30", "fbc7074", "28b2626", "6155775", "1ab99d9", "cee19c4", "53a1bd0", "b6cca17", "c78cdc8", "9f6e522", "c0bdc04"]
+FIX_COMMITS = ["e2ae2a9", "cb2d1e0", "e7575e5", "7bc2f7d", "0af4d83", "e4a4c00", "58e025f", "686179e", "7296d9a", "fa4b68b", "379557f", "4b30646", "0420930", "3aba53e", "2f2a1a1", "40a185d", "926b1f7", "1bc1139", "80aa30b", "cb4346c", "34ccc50", "c46bbfb", "52e39f3", "113558c", "2f9df7c", "3049d27", "8c4d891", "b57e9f6", "06f5ab2", "b6686d7", "5bdb4bc", "21f2ccc", "f629b30", "fbc7074", "28b2626", "6155775", "1ab99d9", "cee19c4", "53a1bd0", "b6cca17", "c78cdc8", "9f6e522", "c0bdc04", "e618867"]
 
 PENDING = "check not built yet in this round (framework under construction); planned per DESIGN.md §5/§8"
 
